@@ -44,6 +44,10 @@ def estimate_markov_model(trajs, lagtime):
 
 def _estimate_markov_model(trajs, lagtime, nstates, perm=None):
     """Estimate MSM based on the transition count matrix."""
+    # the kernel negates the lag time, an unsigned numpy integer would wrap
+    if isinstance(lagtime, np.integer):
+        lagtime = int(lagtime)
+
     # convert trajs to numba list # noqa: SC100
     if not numba.config.DISABLE_JIT:  # pragma: no cover
         trajs = numba.typed.List(trajs)
